@@ -15,6 +15,7 @@ func init() {
 			ruleRemoversUpdateTreeSummary(c, "R4")
 			ruleSummaryRendering(c, "R5")
 			ruleRecountFilter(c, "R4c")
+			ruleUnconditionalRecursion(c, "R4e", []*ssa.Function{c.A.TreeClean, c.A.TreeRemove, c.A.TreeRoutes}, "the recount and Routes() walk the subtree of every child, handler-less prefix nodes included")
 			ruleExhaustiveWalks(c, "R4d", []*ssa.Function{c.A.TreeClean, c.A.TreeRemove, c.A.TreeRoutes}, "the recount and Routes() walk every node")
 			ruleSummaryLockset(c, "R6")
 			ruleRoutesLiveness(c, "R7")
@@ -50,6 +51,7 @@ func init() {
 			ruleHeadWriter(c, "R5")
 			ruleAutoEntries(c, "R6")
 			ruleAutoEntriesDeletedTogether(c, "R7")
+			ruleRecoveryWriterIsCurrent(c, "R8")
 		},
 	})
 }
